@@ -2,3 +2,5 @@ import ReplicatModel.Basic
 import ReplicatModel.Generated
 import ReplicatModel.Chunker
 import ReplicatModel.Clmul
+import ReplicatModel.Sha256
+import ReplicatModel.SigV4
